@@ -15,6 +15,7 @@
                               that are not well-formed (NaN fraction, NaN probability).
   * `C12_sound_today_partial` : what does hold today: acceptance implies `WF` for machines whose
                               fractions and probabilities are not NaN.
+  * `C12_today_eq_fixed_off_nan` : off NaN inputs today's judgement and the fixed one coincide.
   * `C12_fixed_rejects_nan` : the fixed tests leave no NaN in any fraction or probability.
   * `C12_frameworkNew_factors`, `C12_fracOK_sound`, `C12_init_no_fault` : `Framework::new`.
 
@@ -79,6 +80,18 @@ theorem C12_fixed_rejects_nan (m : Machine) (h : machineWith checksFixed m = tru
   · intro s hs v hv ts e t ht en
     have := ((hw.states s hs).vectors v hv ts e).probs t ht
     rw [en] at this; exact this
+
+/-- replacing today's comparisons by the NaN-rejecting ones changes the judgement on no machine
+    whose fractions and probabilities are not NaN: the repair is behaviour-preserving off NaN -/
+theorem C12_today_eq_fixed_off_nan (m : Machine) (hnn : InputsSat (· ≠ .nan) m) :
+    Validate.machine m = machineWith checksFixed m := by
+  rw [machine_eq_with]; exact machine_cur_eq_fixed hnn
+
+/-- non-vacuity: a machine with two states, a two-target vector and a sampled limit is accepted by
+    both styles and is well-formed -/
+example : Validate.machine exampleMachine = true ∧ machineWith checksFixed exampleMachine = true ∧
+    wfB exampleMachine = true := by
+  refine ⟨by decide +kernel, by decide +kernel, by decide +kernel⟩
 
 /-- the monitor run on the implementation's accepted machines decides `WF` -/
 theorem C12_monitor_iff (m : Machine) : wfB m = true ↔ WF m := wfB_iff m
